@@ -172,7 +172,7 @@ Lemma insert_cases v l : is_set l ->
        match nth_error l (length l1) with Some e => lt v e = true | None => True end /\
        s_insert lt v l = (l1 ++ v :: l3, (length l1, true)) /\ is_set (l1 ++ v :: l3))
       \/
-      (exists e, nth_error l (length l1) = Some e /\ lt v e = false /\
+      (exists e, nth_error l (length l1) = Some e /\ lt v e = false /\ lt e v = false /\
                  s_insert lt v l = (l, (length l1, false))) ).
 Proof.
   intros Hs. destruct (cut_split _ _ Hs (key_cut_ok v)) as (l1 & lm & l3 & S3).
@@ -194,7 +194,7 @@ Proof.
       * apply is_set_cons. split; assumption.
       * rewrite Forall_forall in *. intros a Ha. constructor; [apply F1'; exact Ha|apply H13; exact Ha].
   - right. exists e. inversion Fm as [|? ? [He1 He2] _]; subst. cbn [below above Ops.key_cut] in He1, He2.
-    repeat split; [exact Hn|exact He2|]. cbn [app]. apply s_insert_dup; assumption.
+    repeat split; [exact Hn|exact He2|exact He1|]. cbn [app]. apply s_insert_dup; assumption.
 Qed.
 
 Lemma s_insert_length v l : length (fst (s_insert lt v l)) <= S (length l).
@@ -208,7 +208,7 @@ Lemma s_insert_bounded_inv cap v l : is_set l -> length l <= cap ->
   is_set (fst (s_insert_bounded lt cap v l)) /\ length (fst (s_insert_bounded lt cap v l)) <= cap.
 Proof.
   intros Hs Hl. unfold s_insert_bounded.
-  destruct (insert_cases v l Hs) as (l1 & l3 & _ & [(E & _ & Hi & Hs')|(e & _ & _ & Hi)]); rewrite Hi.
+  destruct (insert_cases v l Hs) as (l1 & l3 & _ & [(E & _ & Hi & Hs')|(e & _ & _ & _ & Hi)]); rewrite Hi.
   - cbn [andb]. destruct (Nat.eqb_spec (length l) cap) as [Ec|Ec]; cbn [fst]; [tauto|].
     split; [exact Hs'|]. subst l. rewrite app_length in *. cbn [length]. lia.
   - cbn [andb fst]. tauto.
@@ -219,7 +219,7 @@ Lemma ss_insert_ok cap v l : is_set l ->
   = Ok (fst (s_insert_bounded lt cap v l), present StaticSet (snd (s_insert_bounded lt cap v l))).
 Proof.
   intros Hs. unfold ss_insert, s_insert_bounded.
-  destruct (insert_cases v l Hs) as (l1 & l3 & Hlb & [(E & Hn & Hi & _)|(e & Hn & He & Hi)]);
+  destruct (insert_cases v l Hs) as (l1 & l3 & Hlb & [(E & Hn & Hi & _)|(e & Hn & He & _ & Hi)]);
     rewrite Hlb, Hi; cbn [rbind andb].
   - destruct (nth_error l (length l1)) as [e|]; [rewrite Hn|]; cbn [negb].
     + destruct (length l =? cap); cbn [negb fst snd present]; [reflexivity|].
@@ -234,7 +234,7 @@ Lemma fs_emplace_ok cap v l : is_set l ->
   = Ok (fst (s_insert_bounded lt cap v l), present FlatSet (snd (s_insert_bounded lt cap v l))).
 Proof.
   intros Hs. unfold fs_emplace, s_insert_bounded.
-  destruct (insert_cases v l Hs) as (l1 & l3 & Hlb & [(E & Hn & Hi & _)|(e & Hn & He & Hi)]);
+  destruct (insert_cases v l Hs) as (l1 & l3 & Hlb & [(E & Hn & Hi & _)|(e & Hn & He & _ & Hi)]);
     rewrite Hlb, Hi; cbn [rbind andb].
   - destruct (nth_error l (length l1)) as [e|]; [rewrite Hn|].
     + destruct (length l =? cap); cbn [fst snd present]; [reflexivity|].
@@ -284,7 +284,7 @@ Proof.
   cbn [length] in Hl. unfold s_insert_bounded.
   pose proof (s_insert_length x l) as Hlen.
   assert (Hs' : is_set (fst (s_insert lt x l))).
-  { destruct (insert_cases x l Hs) as (l1 & l3 & _ & [(_ & _ & Hi & Hs')|(e & _ & _ & Hi)]); rewrite Hi; assumption. }
+  { destruct (insert_cases x l Hs) as (l1 & l3 & _ & [(_ & _ & Hi & Hs')|(e & _ & _ & _ & Hi)]); rewrite Hi; assumption. }
   destruct (s_insert lt x l) as [l' [p b]]. cbn [fst] in *.
   replace (length l =? cap) with false by (symmetry; apply Nat.eqb_neq; lia).
   rewrite andb_false_r. replace (fatal k (SIns p b)) with false by (destruct k; reflexivity).
@@ -381,6 +381,22 @@ Proof.
     try destruct (Nat.leb_spec p (S p)) as [H4|H4]; cbn [andb fst snd]; try reflexivity; lia.
 Qed.
 
+(** * erase_if keeps the invariant *)
+Lemma erase_if_inv pred l : is_set l ->
+  is_set (fst (s_erase_if pred l)) /\ length (fst (s_erase_if pred l)) <= length l.
+Proof.
+  intros Hs. unfold s_erase_if. cbn [fst]. split; [apply is_set_filter; exact Hs|].
+  clear Hs. induction l as [|y l IH]; cbn [filter length]; [lia|].
+  destruct (pred y); cbn [negb length]; lia.
+Qed.
+
+End OpsProofs.
+
+(* facts that do not depend on the comparator *)
+Section Plain.
+Context {A : Type}.
+Implicit Types (l : list A).
+
 (** * erase_if *)
 Lemma filter_length_compl (p : A -> bool) l :
   length (filter p l) + length (filter (fun e => negb (p e)) l) = length l.
@@ -400,13 +416,6 @@ Proof.
            && (length (filter (fun x => negb (pred x)) l) <=? length l')) with true
     by (symmetry; rewrite !andb_true_iff, !Nat.leb_le; lia).
   cbn [fst snd]. rewrite H2, skipn_all, app_nil_r. do 3 f_equal. lia.
-Qed.
-
-Lemma erase_if_inv pred l : is_set l ->
-  is_set (fst (s_erase_if pred l)) /\ length (fst (s_erase_if pred l)) <= length l.
-Proof.
-  intros Hs. unfold s_erase_if. cbn [fst]. split; [apply is_set_filter; exact Hs|].
-  pose proof (filter_length_compl pred l). lia.
 Qed.
 
 (** * relations *)
@@ -452,4 +461,4 @@ Proof.
   cbn [rbind]. rewrite !set_lt_ok. reflexivity.
 Qed.
 
-End OpsProofs.
+End Plain.
